@@ -19,17 +19,17 @@ Print Assumptions dump_matches_go.
 
 
 (* ---- ties to the constant tables regenerated from the Go sources (tools/gotables -> GoTables.v) ---- *)
-From Coq Require Import List String ZArith NArith Bool. From Bexpr Require Import Base Strconv Ast Univ Eval Api Dump GoTables TableTie. Import ListNotations.
+From Coq Require Import List String ZArith NArith Bool. From Bexpr Require Import Base Strconv Ast Univ Eval Api Dump GoTables TableTie TieNames. Import ListNotations.
 
 Theorem match_operator_names :
   forall op : matchop, assoc (mop_go op) go_string_MatchOperator = Some (mop_name op).
-Proof. exact TableTie.match_operator_names. Qed.
+Proof. exact TieNames.match_operator_names. Qed.
 Print Assumptions match_operator_names.
 
 Theorem binary_operator_names :
   assoc "BinaryOpAnd" go_string_BinaryOperator = Some (bop_name BAnd) /\
   assoc "BinaryOpOr" go_string_BinaryOperator = Some (bop_name BOr) /\ assoc "UnaryOpNot" go_string_UnaryOperator = Some "Not".
-Proof. exact TableTie.binary_operator_names. Qed.
+Proof. exact TieNames.binary_operator_names. Qed.
 Print Assumptions binary_operator_names.
 
 Theorem collection_names :
@@ -38,6 +38,6 @@ Theorem collection_names :
   go_const_CollectionBindMode =
   [("CollectionBindDefault", "Default"); ("CollectionBindIndex", "Index"); ("CollectionBindValue", "Value");
    ("CollectionBindIndexAndValue", "Index & Value")].
-Proof. exact TableTie.collection_names. Qed.
+Proof. exact TieNames.collection_names. Qed.
 Print Assumptions collection_names.
 
